@@ -60,11 +60,11 @@ class _Return(Exception):
         self.v = v
 
 
-REDUCERS = ("_nonlin_op", "_power", "_mag", "sum", "abs", "absolute", "square", "real", "inner", "vdot", "dot")
+REDUCERS = ("_nonlin_op", "_power", "_mag", "sum", "abs", "absolute", "square", "real", "inner", "vdot", "dot", "norm")
 
 
 class Interp:
-    def __init__(self, env, hooks=None, fuel=20000):
+    def __init__(self, env, hooks=None, fuel=200000):
         self.env = dict(env)
         self.hooks = hooks or {}
         self.fuel = fuel
@@ -229,6 +229,10 @@ class Interp:
 
     def e_Subscript(self, e):
         v = self.ev(e.value)
+        if isinstance(e.slice, ast.Tuple) and len(e.slice.elts) == 2 and isinstance(e.slice.elts[0], ast.Constant) and e.slice.elts[0].value is Ellipsis \
+                and isinstance(e.slice.elts[1], ast.Slice) and isinstance(v, Arr):
+            # x[..., a:b]: the label array stands for the last axis
+            return self.e_Subscript(ast.copy_location(ast.Subscript(value=e.value, slice=e.slice.elts[1], ctx=ast.Load()), e))
         if isinstance(e.slice, ast.Slice):
             lo = None if e.slice.lower is None else self.ev(e.slice.lower)
             hi = None if e.slice.upper is None else self.ev(e.slice.upper)
@@ -281,14 +285,24 @@ class Interp:
             base = self.ev(f.value) if isinstance(f, ast.Attribute) and not args else (args[0] if args else None)
             if isinstance(base, Arr):
                 return base.conj()
-        if name in REDUCERS:
-            vals = args or ([self.ev(f.value)] if isinstance(f, ast.Attribute) else [])
-            if len(vals) == 1 and isinstance(vals[0], Prod):
-                return Terms(vals[0].pairs)
-            if len(vals) == 1 and isinstance(vals[0], Terms):
-                return vals[0]
-            if len(vals) == 2 and all(isinstance(v, Arr) for v in vals) and name in ("inner", "dot", "vdot"):
+        if name in REDUCERS or name in ("norm", "clone", "contiguous"):
+            cands = list(args)
+            if isinstance(f, ast.Attribute) and self.key(f.value) not in ("np", "numpy", "torch", "torch.linalg", "np.linalg", "numpy.linalg", "math"):
+                try:
+                    cands.insert(0, self.ev(f.value))
+                except Unsupported:
+                    pass
+            for v in cands:
+                if isinstance(v, Prod):
+                    return Terms(v.pairs) if name not in ("abs", "absolute", "clone", "contiguous") else v
+                if isinstance(v, Terms):
+                    return v
+            if len(cands) >= 2 and all(isinstance(v, Arr) for v in cands[:2]) and name in ("inner", "dot", "vdot"):
                 raise Unsupported("a plain (un-moduled) inner product of spectrum and filter")
+        if name == "flip" and isinstance(f, ast.Attribute):
+            base = self.ev(f.value)
+            if isinstance(base, Arr):
+                return Arr(base.tags[::-1])
         if name == "append" and isinstance(f, ast.Attribute) and len(args) == 1:
             tgt = self.ev(f.value)
             if isinstance(tgt, list):
@@ -359,7 +373,7 @@ class Interp:
         n = 0
         while self.truth(self.ev(st.test)):
             n += 1
-            if n > 400:
+            if n > 200:
                 raise _ShapeError("the loop `while %s` does not end" % ast.unparse(st.test)[:50])
             try:
                 self.run(st.body)
